@@ -6,14 +6,13 @@ Property theorems only (model: `Qx/Model/C15Ice.lean`, helpers: `Qx/Proofs/C15.l
 the C++ by `translators/ice_prio.py` into `Qx/Generated/IcePrio.lean`).
 
 Reading guide.  `d.unauthenticated` = STUN datagram whose MESSAGE-INTEGRITY status is not "valid under the key for its
-class" (absent, wrong key, the other password, truncated).  `d.forged` = unauthenticated AND some MESSAGE-INTEGRITY
-attribute is present.  `NoEffect s d` = the connectivity view (pair states, nominated flags, remote candidates, selected
-pair, connected) is unchanged and neither a Binding response nor a connectivity check is emitted.
+class": absent, computed with a wrong key, valid only under the session's other password, or truncated.
+`NoEffect s d` = the connectivity view (pair states, nominated flags, remote candidates, selected pair, connected) is
+unchanged and neither a Binding response, nor a connectivity check, nor `connected()` is emitted.
 
-The full safety statement `∀ s d, d.unauthenticated → NoEffect s d` is FALSE for today's code (`C15_defect_*`): a message
-without any MESSAGE-INTEGRITY passes `QXmppStunMessage::decode`.  It is proved (a) for every datagram that carries an
-integrity attribute, for every state and every history (`…_partial`, `forged_…`), and (b) in full for the model variant
-`requireMi = true`, which is the behaviour with /verif/fixes/C15-require-mi.diff applied (`…_fixed`).
+History: before repo commit f41aa68 the full safety statement was false — a message without any MESSAGE-INTEGRITY passed
+`QXmppStunMessage::decode` and was processed as authenticated (two such datagrams made the component report `connected` to a
+stranger).  The old witness is kept as `former_takeover_witness_is_inert` (and first in the harness corpus).
 -/
 namespace Qx.C15
 
@@ -22,118 +21,68 @@ def NoEffect (s : St) (d : Datagram) : Prop :=
   connView (react s d).1 = connView s ∧
   ∀ o ∈ (react s d).2, isBindingResponse o = false ∧ isCheckSent o = false ∧ o ≠ Out.connectedSig
 
-/-- `forged` is exactly "unauthenticated, but with some MESSAGE-INTEGRITY attribute" -/
-theorem forged_iff (d : Datagram) :
-    d.forged = true ↔ d.unauthenticated = true ∧ ∃ m, d.kind = .stun m ∧ m.mi ≠ .absent := by
-  obtain ⟨src, kind⟩ := d
-  cases kind with
-  | nonStun p => simp [Datagram.forged, Datagram.unauthenticated]
-  | stun m => simp [Datagram.forged, Datagram.unauthenticated]
-
 /-! ## Safety -/
 
-/-- **Today's code violates the full statement.**  Witness: a controlled component that knows its peer's credentials but
-has not started, and a Binding request WITHOUT MESSAGE-INTEGRITY from an address (8) nobody told it about.
-Full statement negated: `∀ s d, s.requireMi = false → d.unauthenticated → NoEffect s d`. -/
-theorem C15_defect_no_mi_accepted :
-    ¬ (∀ (s : St) (d : Datagram), s.requireMi = false → d.unauthenticated = true → NoEffect s d) := by
-  intro h
-  have h1 := h (step (init false) .setRemoteCreds).1
-    { src := 8, kind := .stun { cls := .request, txid := 1000, mi := .absent, priority := 12345 } } (by decide) (by decide)
-  exact absurd h1.1 (by decide)
+/-- **Unauthenticated traffic has no effect — for EVERY state and EVERY unauthenticated datagram** (no integrity attribute,
+wrong key, the session's other password, truncated attribute; any class, method, source, user name, role attribute,
+USE-CANDIDATE, transaction id — guessed right or not): the component state is returned literally unchanged, hence the
+connectivity view is, and nothing is answered. -/
+theorem unauthenticated_traffic_no_effect (s : St) (d : Datagram) (hun : d.unauthenticated = true) :
+    NoEffect s d ∧ (react s d).1 = s := by
+  have h := react_unauthenticated s d hun
+  refine ⟨⟨by rw [h.1], ?_⟩, h.1⟩
+  intro o ho
+  rcases h.2 o ho with h1 | h1 <;> rw [h1] <;> decide
 
-/-- … and this is what the component does with that request: it answers with a Binding success response, learns the
-sender as a peer-reflexive remote candidate with the priority the sender chose, creates a pair for it and immediately
-sends it a triggered connectivity check (which discloses a transaction id and the user names). -/
-theorem C15_defect_no_mi_accepted_witness :
-    let s := (step (init false) .setRemoteCreds).1
-    let r := react s { src := 8, kind := .stun { cls := .request, txid := 1000, mi := .absent, priority := 12345 } }
-    r.2 = [.accepted, .bindingResponse 8 1000, .pairState 8 .inProgress, .checkSent 8 0 false] ∧
-    r.1.remoteCands = [{ addr := 8, prio := 12345, prflx := true }] ∧
-    r.1.pairs = [{ remote := 8, rprio := 12345, state := .inProgress, tx := some 0 }] := by
-  decide
+/-- the only thing the component may do with such a datagram is log one of the two integrity warnings -/
+theorem unauthenticated_datagram_dropped (s : St) (d : Datagram) (h : d.unauthenticated = true) :
+    (react s d).1 = s ∧ ∀ o ∈ (react s d).2, o = Out.warnBadMi ∨ o = Out.warnNoMi :=
+  react_unauthenticated s d h
 
-/-- **Two datagrams without any credentials take over the component.**  The stranger adds USE-CANDIDATE to the request and
-answers the triggered check (whose transaction id it has just been sent) with a Binding success response that again
-carries no MESSAGE-INTEGRITY: the component reports `connected` and routes application data to the stranger. -/
-theorem C15_defect_unauthenticated_peer_connects :
+/-- **Whole histories.**  A history that consists only of unauthenticated datagrams (any number, any mix) leaves every state
+`s` — in particular its connectivity view — exactly as it was. (Name kept from the time when this held only for datagrams that
+carried some integrity attribute; it now covers absent MESSAGE-INTEGRITY too.) -/
+theorem forged_history_no_effect (s : St) (ops : List Op) (h : ∀ op ∈ ops, op.unauthenticated = true) :
+    connView (run s ops).1 = connView s ∧ (run s ops).1 = s ∧ ∀ o ∈ (run s ops).2, isIntegrityWarning o = true := by
+  have h1 := run_all_unauthenticated ops s h
+  exact ⟨by rw [h1.1], h1.1, h1.2⟩
+
+/-- **Interleaved at any point of any negotiation.**  Take any history at all (credentials, candidates, timer ticks,
+time-outs, honest and dishonest datagrams in any order) and erase ALL unauthenticated datagrams from it: the final state is the
+same and so is everything the component emitted, except for the integrity warnings. -/
+theorem forged_traffic_erasable (s : St) (ops : List Op) :
+    (run s ops).1 = (run s (ops.filter fun o => !o.unauthenticated)).1 ∧
+    (run s ops).2.filter (fun o => !isIntegrityWarning o)
+      = (run s (ops.filter fun o => !o.unauthenticated)).2.filter (fun o => !isIntegrityWarning o) :=
+  run_erase_unauthenticated ops s
+
+/-- **Only authenticated messages can matter:** if a STUN datagram changes the state or makes the component emit anything but
+an integrity warning, then its MESSAGE-INTEGRITY is the valid one for its class. -/
+theorem reaction_only_to_valid_mi (s : St) (src : Nat) (m : Stun)
+    (h : (react s { src := src, kind := .stun m }).1 ≠ s ∨
+         ∃ o ∈ (react s { src := src, kind := .stun m }).2, isIntegrityWarning o = false) :
+    m.mi = validFor m.cls := by
+  by_cases h1 : m.mi = validFor m.cls
+  · exact h1
+  exfalso
+  have hf : ({ src := src, kind := .stun m } : Datagram).unauthenticated = true := by simp [Datagram.unauthenticated, h1]
+  have h3 := react_unauthenticated s _ hf
+  rcases h with h | ⟨o, ho, hne⟩
+  · exact h h3.1
+  · rcases h3.2 o ho with h4 | h4 <;> rw [h4] at hne <;> exact absurd hne (by decide)
+
+/-- The witness that used to take the component over (request without MESSAGE-INTEGRITY + USE-CANDIDATE from an unknown
+address, then an integrity-less success response to the triggered check) now does nothing: not connected, no pair, no
+candidate, application data has nowhere to go. -/
+theorem former_takeover_witness_is_inert :
     let ops : List Op :=
       [.setRemoteCreds,
        .dgram { src := 8, kind := .stun { cls := .request, txid := 1000, mi := .absent, useCandidate := true, priority := 12345 } },
        .dgram { src := 8, kind := .stun { cls := .response, txid := 0, mi := .absent } },
        .sendApp [1, 2, 3]]
-    (ops.all fun op => match op with | .dgram d => d.unauthenticated | _ => true) = true ∧
-    (run (init false) ops).1.connected = true ∧ (run (init false) ops).1.active = some 8 ∧
-    Out.connectedSig ∈ (run (init false) ops).2 ∧ Out.appSent 8 [1, 2, 3] ∈ (run (init false) ops).2 := by
+    (run (init false) ops).1.connected = false ∧ (run (init false) ops).1.pairs = [] ∧
+    (run (init false) ops).1.remoteCands = [] ∧ (run (init false) ops).2 = [.warnNoMi, .warnNoMi, .appNoRoute] := by
   decide
-
-/-- **Partial (what holds today, for EVERY state):** a STUN datagram that carries a MESSAGE-INTEGRITY attribute which is
-not valid under the key for its class — computed with a wrong key, with the session's other password, or truncated —
-leaves the whole component state (hence the connectivity view) unchanged and is not answered.
-Missing relative to the full statement: the case "no MESSAGE-INTEGRITY attribute at all" (see the defect theorems). -/
-theorem unauthenticated_traffic_no_effect_partial (s : St) (d : Datagram)
-    (hun : d.unauthenticated = true) (hmi : ∀ m, d.kind = .stun m → m.mi ≠ .absent) : NoEffect s d := by
-  have hf : d.forged = true := by
-    rw [forged_iff]
-    refine ⟨hun, ?_⟩
-    obtain ⟨src, kind⟩ := d
-    cases kind with
-    | nonStun p => simp [Datagram.unauthenticated] at hun
-    | stun m => exact ⟨m, rfl, hmi m rfl⟩
-  have h := react_forged s d hf
-  refine ⟨by rw [h.1], ?_⟩
-  intro o ho
-  rw [h.2 o ho]
-  decide
-
-/-- the same with the stronger conclusion actually proved: the state is returned literally unchanged and the only thing the
-component may do is log "Bad message integrity" -/
-theorem forged_datagram_dropped (s : St) (d : Datagram) (h : d.forged = true) :
-    (react s d).1 = s ∧ ∀ o ∈ (react s d).2, o = Out.warnBadMi :=
-  react_forged s d h
-
-/-- **Whole histories.**  A history that consists only of forged datagrams (any number, any mix of classes, keys, user names,
-role attributes, USE-CANDIDATE, sources) leaves every reachable-or-not state `s` — in particular its connectivity view —
-exactly as it was. -/
-theorem forged_history_no_effect (s : St) (ops : List Op) (h : ∀ op ∈ ops, op.forged = true) :
-    connView (run s ops).1 = connView s ∧ (run s ops).1 = s ∧ ∀ o ∈ (run s ops).2, o = Out.warnBadMi := by
-  have h1 := run_all_forged ops s h
-  exact ⟨by rw [h1.1], h1.1, h1.2⟩
-
-/-- **Interleaved at any point of any negotiation.**  Take any history at all (credentials, candidates, timer ticks,
-time-outs, honest and dishonest datagrams in any order) and erase the forged datagrams from it: the final state is the
-same and so is everything the component emitted, except for the bad-integrity warnings. -/
-theorem forged_traffic_erasable (s : St) (ops : List Op) :
-    (run s ops).1 = (run s (ops.filter fun o => !o.forged)).1 ∧
-    (run s ops).2.filter (fun o => o != Out.warnBadMi)
-      = (run s (ops.filter fun o => !o.forged)).2.filter (fun o => o != Out.warnBadMi) :=
-  run_erase_forged ops s
-
-/-- **Only authenticated (or, today, integrity-less) messages can matter:** if a STUN datagram changes the state or makes the
-component emit anything but the bad-integrity warning, then its MESSAGE-INTEGRITY is the valid one for its class or absent. -/
-theorem reaction_only_to_valid_or_absent_mi (s : St) (src : Nat) (m : Stun)
-    (h : (react s { src := src, kind := .stun m }).1 ≠ s ∨ ∃ o ∈ (react s { src := src, kind := .stun m }).2, o ≠ Out.warnBadMi) :
-    m.mi = validFor m.cls ∨ m.mi = .absent := by
-  by_cases h1 : m.mi = validFor m.cls
-  · exact Or.inl h1
-  by_cases h2 : m.mi = .absent
-  · exact Or.inr h2
-  exfalso
-  have hf : ({ src := src, kind := .stun m } : Datagram).forged = true := by simp [Datagram.forged, h1, h2]
-  have h3 := react_forged s _ hf
-  rcases h with h | ⟨o, ho, hne⟩
-  · exact h h3.1
-  · exact hne (h3.2 o ho)
-
-/-- **Full statement, for the repaired behaviour** (`requireMi = true`, i.e. with fixes/C15-require-mi.diff applied: peer
-messages without MESSAGE-INTEGRITY are dropped before decoding): EVERY unauthenticated datagram, absent integrity included,
-leaves the state unchanged and is not answered. -/
-theorem unauthenticated_traffic_no_effect_fixed (s : St) (hfix : s.requireMi = true) (d : Datagram)
-    (hun : d.unauthenticated = true) : NoEffect s d ∧ (react s d).1 = s := by
-  have h := react_unauthenticated_fixed s hfix d hun
-  refine ⟨⟨by rw [h.1], ?_⟩, h.1⟩
-  intro o ho
-  rcases h.2 o ho with h1 | h1 <;> rw [h1] <;> decide
 
 /-- Application (non-STUN) datagrams never touch the connectivity view and are handed up byte for byte. -/
 theorem non_stun_no_effect (s : St) (src : Nat) (p : List UInt8) :
@@ -240,19 +189,23 @@ def midNegotiation : St :=
   (run (init false) [.setRemoteCreds, .addRemote 1 (localPriority 1), .connect,
     .dgram { src := 1, kind := .stun { cls := .request, txid := 5000, mi := .validLocal, useCandidate := true, roleAttr := .controlling } }]).1
 
--- the state is non-trivial, and forged datagrams exist for every kind of forgery
+-- the state is non-trivial, and unauthenticated datagrams exist for every kind of forgery
 example : (connView midNegotiation).1 = [(1, .inProgress, false)] := by decide
-example : ({ src := 8, kind := .stun { cls := .request, txid := 7, mi := .wrongKey, useCandidate := true } } : Datagram).forged = true := by decide
-example : ({ src := 1, kind := .stun { cls := .response, txid := 0, mi := .truncated } } : Datagram).forged = true := by decide
-example : ({ src := 1, kind := .stun { cls := .response, txid := 0, mi := .validLocal } } : Datagram).forged = true := by decide
+example : ({ src := 8, kind := .stun { cls := .request, txid := 7, mi := .wrongKey, useCandidate := true } } : Datagram).unauthenticated = true := by decide
+example : ({ src := 1, kind := .stun { cls := .response, txid := 0, mi := .truncated } } : Datagram).unauthenticated = true := by decide
+example : ({ src := 1, kind := .stun { cls := .response, txid := 0, mi := .validLocal } } : Datagram).unauthenticated = true := by decide
 -- the very same response with the right key completes the negotiation, so "no effect" is not for lack of opportunity
 example : (react midNegotiation { src := 1, kind := .stun { cls := .response, txid := 0, mi := .validRemote } }).1.connected = true := by decide
 example : (react midNegotiation { src := 1, kind := .stun { cls := .response, txid := 0, mi := .validLocal } }).1 = midNegotiation := by decide
--- the fixed variant still lets the honest negotiation through and refuses the integrity-less request
-example : (run (init false 1 true) [.setRemoteCreds, .addRemote 1 (localPriority 1), .connect,
+example : ({ src := 8, kind := .stun { cls := .request, txid := 7, mi := .absent, useCandidate := true } } : Datagram).unauthenticated = true := by decide
+-- the honest negotiation goes through, the integrity-less request is refused with the dedicated warning
+example : (run (init false) [.setRemoteCreds, .addRemote 1 (localPriority 1), .connect,
     .dgram { src := 1, kind := .stun { cls := .request, txid := 5000, mi := .validLocal, useCandidate := true, roleAttr := .controlling } },
     .dgram { src := 1, kind := .stun { cls := .response, txid := 0, mi := .validRemote } }]).1.connected = true := by decide
-example : (react (init false 1 true) { src := 8, kind := .stun { cls := .request, txid := 1, mi := .absent } }).2 = [.warnNoMi] := by decide
+example : (react (init false) { src := 8, kind := .stun { cls := .request, txid := 1, mi := .absent } }).2 = [.warnNoMi] := by decide
+-- a history mixing honest and unauthenticated operations, for `forged_traffic_erasable`
+example : ([Op.setRemoteCreds, .dgram { src := 8, kind := .stun { cls := .request, txid := 1, mi := .absent } }, .connect].filter
+    fun o => !o.unauthenticated) = [.setRemoteCreds, .connect] := by decide
 -- role conflict hypothesis is met by the honest request of a same-role agent
 example : handleRequest (init true) 1 { cls := .request, txid := 1, mi := .validLocal, useCandidate := true, roleAttr := .controlling }
     = (init true, [.roleConflict]) := by decide
